@@ -22,7 +22,7 @@ PASS_THROUGH = re.compile(
     r'Result::<T, E>::(unwrap|expect|ok|map_err|unwrap_or|unwrap_or_default|unwrap_or_else)$|core::hint::must_use$|::into_iter$|::iter$|AsRef<.*>>::as_ref$|::into_boxed_str$|::into_string$')
 
 
-def origins(fn, local, pass_through=PASS_THROUGH, max_nodes=400, extra_pass=None):
+def origins(fn, local, pass_through=PASS_THROUGH, max_nodes=400, extra_pass=None, through_ops=False):
     fn = F(fn) if isinstance(fn, dict) else fn
     out = set()
     seen = set()
@@ -64,8 +64,13 @@ def origins(fn, local, pass_through=PASS_THROUGH, max_nodes=400, extra_pass=None
                         _from_op(fn, o, st, out)
                 elif kind == 'bin':
                     out.add(('op', rv[1], b))
+                    if through_ops:
+                        _from_op(fn, rv[2], st, out)
+                        _from_op(fn, rv[3], st, out)
                 elif kind == 'un':
                     out.add(('op', rv[1], b))
+                    if through_ops:
+                        _from_op(fn, rv[2], st, out)
                 elif kind == 'discr':
                     out.add(('op', 'discr', b))
                 elif kind == 'repeat':
@@ -96,8 +101,8 @@ def _from_op(fn, o, st, out):
     if o[0] in ('c', 'm'):
         st.append(o[1][0])
         fs = [p[1] for p in o[1][1] if isinstance(p, list) and p[0] == 'f']
-        if fs:
-            out.add(('field', fs[-1]))
+        for f_ in fs:
+            out.add(('field', f_))
     elif o[0] == 'k':
         out.add(('const', o[2]))
     else:
